@@ -295,10 +295,12 @@ func pickConfigs(rng *rand.Rand, thorough bool) []config {
 	if thorough {
 		out := []config{{"all", "none", "css"}, {"off", "none", "css"}}
 		perm := rng.Perm(len(targets) - 1)
-		for _, k := range perm[:2] {
-			out = append(out, config{"all", targets[1+k].name, "css"}, config{"off", targets[1+k].name, "css"})
+		out = append(out, config{"all", targets[1+perm[0]].name, "css"}, config{"off", targets[1+perm[0]].name, "css"}, config{"all", targets[1+perm[1]].name, "css"})
+		if rng.Intn(2) == 0 {
+			out = append(out, config{"syntax", targets[1+perm[2]].name, "css"})
+		} else {
+			out = append(out, config{"all", targets[1+perm[3]].name, "global-css"})
 		}
-		out = append(out, config{"syntax", targets[1+perm[2]].name, "css"}, config{"all", targets[1+perm[3]].name, "global-css"})
 		return out
 	}
 	old := targets[1+rng.Intn(3)].name
@@ -619,7 +621,7 @@ func Run(r *core.Run) {
 		}()
 	}
 	g := &gen{voc: voc, rng: rand.New(rand.NewSource(r.Seed))}
-	nSheets := r.Pick(280, 5000)
+	nSheets := r.Pick(280, 3500)
 	if v := os.Getenv("C12_N"); v != "" { // development only
 		fmt.Sscan(v, &nSheets)
 	}
@@ -670,7 +672,7 @@ func Run(r *core.Run) {
 	// CSS modules: a slice of the same cases through loader local-css behind a JavaScript entry
 	var local []*Case
 	for i, c := range cases {
-		if i%r.Pick(10, 4) == 0 && c.Family != "witness" && c.Family != "regress" {
+		if i%r.Pick(10, 7) == 0 && c.Family != "witness" && c.Family != "regress" {
 			local = append(local, c)
 		}
 	}
